@@ -116,6 +116,19 @@ def params_get(eng, st, p, args, kw, node):
             yield st1, dflt
 
 
+def params_setdefault(eng, st, p, args, kw, node):
+    """dict.setdefault: the present value, else the default is stored and returned"""
+    has, val = _p(eng, st, p)
+    k = _key(eng, args[0], st)
+    dflt = args[1] if len(args) > 1 else NONE
+    for st1, ok in eng.fork(st, z3.Select(has, k), f"params.setdefault({args[0].term})"):
+        if ok:
+            yield st1, V(STR, z3.Select(val, k))
+        else:
+            for st2, _ in params_setitem(eng, st1, p, [args[0], dflt], {}, node):
+                yield st2, dflt
+
+
 def params_contains(eng, st, p, args, kw, node):
     has, val = _p(eng, st, p)
     yield st, V(BOOL, z3.Select(has, _key(eng, args[0], st)))
@@ -330,6 +343,7 @@ SCHEMA["Params"]["methods"].update({
     "__setitem__": params_setitem, "__delitem__": params_delitem, "copy": params_copy,
     "update": params_update, "get_numeric": params_get_numeric, "get_boolean": params_get_boolean,
     "get_list": params_get_list, "objects": params_objects, "object_params": params_object_params,
+    "setdefault": params_setdefault,
     "keys": params_keys,
 })
 
